@@ -49,6 +49,10 @@ func (ex *Exec) ensuresAt(fr *Frame, pc Term, st State, results []Term, pos toke
 		return
 	}
 	ex.nReturns++
+	if len(fc.Ensures) > 0 {
+		// vacuity guard per return point: the hypotheses on this path must not contradict each other
+		ex.vc.cover(&Obligation{ID: fmt.Sprintf("%s#cover.return@%d", ex.fnID, ex.nReturns), Func: ex.fnID, Kind: "cover", Props: fc.Props, Where: posOf(fn, pos)}, pc)
+	}
 	{
 		se := ex.newSpecEnv(fr, pc, st, fr.entry)
 		ex.bindResults(se, fn, results)
